@@ -113,7 +113,7 @@ pub fn run_property(prop: &str, tier: &str, threads: usize, budget: &Budget, fin
     if std::env::var("LSVERIF_HOSTED_PLAN").is_ok_and(|p| p == "big") {
         // texts around the largest length a heap handle stores inline (32-bit targets only)
         let d: usize = std::env::var("LSVERIF_DEPTH").ok().and_then(|s| s.parse().ok()).unwrap_or(1);
-        report.rule = format!("big-length exploration: every sequence of at most {d} operations (push, push_str, pop, three truncations, clear, insert, remove, two reservations, two shrinks, drop, clone, clone_from) on two slots from {} roots (texts of B-2..=B+2 bytes; buffers of capacity B, B+1, B+3 holding nothing, 10 bytes, B-1 bytes or capacity-many bytes; borrowed static texts of B-1, B, B+1 bytes; B = {} is the largest length a heap handle stores in its own second word), next to a String model; oracles of {prop}: outcome, text, length, capacity, exact shrink, every block released once with its layout, nothing left allocated; distinct = distinct (root kind, last operation)", crate::big::roots().len(), crate::big::B);
+        report.rule = format!("big-length exploration: every sequence of at most {d} operations (push, push_str, pop, three truncations, clear, insert, remove, two reservations, two reservations that must be refused, two shrinks, drop, clone, clone_from) on two slots from {} roots (texts of B-2..=B+2 bytes; buffers of capacity B, B+1, B+3 holding nothing, 10 bytes, B-1 bytes or capacity-many bytes; borrowed static texts of B-1, B, B+1 bytes; B = {} is the largest length a heap handle stores in its own second word), next to a String model; oracles of {prop}: outcome, text, length, capacity, exact shrink, every block released once with its layout, nothing left allocated; distinct = distinct (root kind, last operation)", crate::big::roots().len(), crate::big::B);
         report.bounds.push(format!("target: {} bit, {} endian{}", usize::BITS, if cfg!(target_endian = "big") { "big" } else { "little" }, if std::env::var("LSVERIF_MIRI").is_ok() { " (executed by Miri)" } else { "" }));
         if !crate::big::applicable() {
             report.bounds.push("not applicable on this target: B = 2^56 - 2 cannot be reached".into());
@@ -130,14 +130,14 @@ pub fn run_property(prop: &str, tier: &str, threads: usize, budget: &Budget, fin
         // (saturating additions against an allocation limit of isize::MAX, no 56-bit limit)
         report.rule = "size-argument probe hosted for this target: for every seed state and every state one constructor away from the empty pool, every live handle, every entry point (try_reserve / reserve / try_shrink_to / shrink_to / extend with a size hint as lower and as upper bound) and every n in SIZES (powers of two +-2 up to the word size, isize::MAX +-2, usize::MAX-2.., each minus the current length, len+-1, cap+-1); constructors with_capacity / try_with_capacity / collect with hint n; requests above 1 MiB are refused by the shim".into();
         report.bounds.push(format!("target: {} bit, {} endian{}", usize::BITS, if cfg!(target_endian = "big") { "big" } else { "little" }, if std::env::var("LSVERIF_MIRI").is_ok() { " (executed by Miri)" } else { "" }));
-        // every part explores the (small) graph in full and then takes its share of the states
-        let quiet_env = Env { part: None, ..env };
-        let mut states = flatten(&bfs(&quiet_env, report, &wide, Roots::Seeds, 0, Props::default(), true), 0);
-        states.extend(flatten(&bfs(&quiet_env, report, &wide, Roots::Empty, 1, Props::default(), true), 1));
+        // six seed states with every storage kind; every part walks all of them and takes its
+        // share of the (handle, size, entry point) cases
+        let seeds = profiles::seeds(&wide);
+        let chosen: Vec<History> = [0usize, 3, 5, 10, 12, 16].iter().filter_map(|&i| seeds.get(i).cloned()).collect();
+        report.bounds.push(format!("states: {} seed prefixes; reduced size set (2^k-1..2^k+1 for k in 16, 20, 23, 24, {}, {}; isize::MAX-1..+1; usize::MAX-1..; the last three minus the current length +-1; len+-1, cap+-1)", chosen.len(), usize::BITS - 2, usize::BITS - 1));
         let stats = ProbeStats::default();
         let cx = ProbeCtx { prof: &wide, findings, stats: &stats, heap_as: None, iso_as: None };
-        let mine: Vec<History> = states.into_iter().enumerate().filter(|(i, _)| env.part.is_none_or(|(k, n)| i % n == k)).map(|(_, h)| h).collect();
-        let (done, complete) = for_each_state(&mine, 1, budget, |h| probes::size_probe(&cx, h));
+        let (done, complete) = for_each_state(&chosen, 1, budget, |h| probes::size_probe(&cx, h));
         if env.part.is_none_or(|(k, _)| k == 0) {
             probes::size_ctor_sweep(&cx);
         }
